@@ -3,7 +3,18 @@ import shutil
 
 from common import *
 
-SYS_RS = os.path.join(REPO, "src", "sys", "mod.rs")
+def _repo_of_harness():
+    try:
+        m = re.search(r'uiua\s*=\s*\{[^}]*path\s*=\s*"([^"]+)"', open(os.path.join(HARNESS, "Cargo.toml")).read())
+        if m and os.path.isdir(m.group(1)):
+            return m.group(1)
+    except OSError:
+        pass
+    return REPO
+
+
+SRC_REPO = _repo_of_harness()          # the tree the harness is built against (a mutated copy under lib/seedtest.py)
+SYS_RS = os.path.join(SRC_REPO, "src", "sys", "mod.rs")
 HARNESS_RS = os.path.join(HARNESS, "src", "bin", "c20.rs")
 GEN = os.path.join(COQ, "Gen", "Purity.v")
 AMBIENT = {"any", "any_mut", "now", "output_enabled", "allow_thread_spawning", "save_error_color", "set_output_enabled"}
@@ -80,6 +91,13 @@ def impl_methods(block):
     return out
 
 
+HOST_TOKENS = re.compile(
+    r"\.\s*(exists|try_exists|is_file|is_dir|is_symlink|metadata|symlink_metadata|read_dir|read_link|canonicalize)\s*\(|"
+    r"std::fs|\bfs::|File::|OpenOptions|std::env|\benv::|std::process|process::|Command::|std::net|TcpStream|TcpListener::|UdpSocket::|"
+    r"std::time|\bInstant\b|SystemTime|UtcOffset|\bnow\s*\(|thread::sleep|std::thread|std::io|\bstd(in|out|err)\s*\(|\be?print(ln)?!|"
+    r"libloading|libffi|unsafe\b")
+
+
 def parse_sys_rs():
     src = open(SYS_RS).read()
     t0 = src.index("pub trait SysBackend")
@@ -102,7 +120,9 @@ def parse_sys_rs():
                 kind = ("DComp", sorted(set(callees)))
             else:
                 kind = ("DOther", [])
-        table.append({"name": name, "cfg": cfg, "kind": kind[0], "callees": kind[1], "body": (body or "").strip()[:200]})
+        norm = " ".join((body or "").split())
+        toks = sorted(set(m.group(0).strip() for m in HOST_TOKENS.finditer(re.sub(r"//[^\n]*", "", body or ""))))
+        table.append({"name": name, "cfg": cfg, "kind": kind[0], "callees": kind[1], "body": (body or "").strip()[:200], "norm": norm, "host_tokens": toks})
     return table, [n for n, _, _ in safe], len(re.findall(r"\n    fn \w+", tblock))
 
 
@@ -167,11 +187,16 @@ def write_gen(rows, trait, safe_over):
             "Definition gen_sysops : list (string * purity) := [\n%s\n].\n\n"
             "Definition gen_mods : list (modk * purity) := [\n%s\n].\n\n"
             "Definition trait_methods : list (string * dflt) := [\n%s\n].\n\n"
-            "Definition safe_overridden : list string := [%s].\n"
+            "Definition safe_overridden : list string := [%s].\n\n"
+            "(* per default body: the host-touching constructs the scan finds in it, and its text when it is neither a denial nor a composition *)\n"
+            "Definition default_host_tokens : list (string * list string) := [\n%s\n].\n\n"
+            "Definition default_other_bodies : list (string * string) := [\n%s\n].\n"
             % (";\n".join(lines),
                ";\n".join("  (%s, %s)" % (cstr(n), sorted(p)[0]) for n, p in sorted(named.items()) if len(p) == 1),
                ";\n".join("  (%s, %s)" % (cstr(r["dbg"]), r["pur"]) for r in sysops),
-               ";\n".join(mlines), ";\n".join(tl), "; ".join(cstr(s) for s in safe_over)))
+               ";\n".join(mlines), ";\n".join(tl), "; ".join(cstr(s) for s in safe_over),
+               ";\n".join("  (%s, [%s])" % (cstr(t["name"]), "; ".join(cstr(x) for x in t["host_tokens"])) for t in trait if t["kind"] != "DRequired"),
+               ";\n".join("  (%s, %s)" % (cstr(t["name"]), cstr(t["norm"][:120])) for t in trait if t["kind"] == "DOther")))
     os.makedirs(os.path.dirname(GEN), exist_ok=True)
     old = open(GEN).read() if os.path.exists(GEN) else ""
     if old != text:
@@ -219,13 +244,13 @@ SCAN_FINDINGS = [
 def static_scan():
     hits, files = [], 0
     for base in ("src", "parser/src"):
-        for root, _, fs in os.walk(os.path.join(REPO, base)):
+        for root, _, fs in os.walk(os.path.join(SRC_REPO, base)):
             for fn in fs:
                 if not fn.endswith(".rs"):
                     continue
                 files += 1
                 path = os.path.join(root, fn)
-                rel = os.path.relpath(path, REPO)
+                rel = os.path.relpath(path, SRC_REPO)
                 for n, line in enumerate(open(path, errors="replace"), 1):
                     if line.lstrip().startswith("//"):
                         continue
@@ -241,14 +266,20 @@ def run(r):
     r.trusted += TRUSTED_COMMON + [
         "that a primitive labelled Pure has no host effect inside its Rust body is established by the recording backend and the source scan, not by a theorem",
         "the recording backend (harness/src/bin/c20.rs) records every SysBackend method; completeness of its method list is compared with the trait parsed from src/sys/mod.rs on every run",
-        "regular-expression parsers of the SysBackend trait / SafeSys impl / run_sys_op match arms (lib/c20.py); a method they cannot classify is a failure, never skipped",
+        "regular-expression parsers of the SysBackend trait / SafeSys impl / run_sys_op match arms and the token scan of the default bodies (lib/c20.py); a method they cannot classify, or a default body whose text changed, is a failure, never skipped",
+        "the list of host-touching constructs searched for in default bodies (file-system probes of Path, std::fs/env/process/net/io/thread/time, clocks, standard streams, print macros, unsafe) is a syntactic criterion; the behavioural counterpart is the existing-vs-missing target run under SafeSys and a backend without overrides",
         "/proc/self/fd and /proc/*/stat as the observation of descriptors and child processes",
+        "the verif hook Compiler::verif_session_state (read-only view of pre_eval_mode, in_fill, in_try, comptime_depth)",
+        "Debug printing of nodes as the comparison of what a reused and a fresh compiler produce (binding indices and clock/random values normalised)",
     ]
     r.assumptions += [
         "prims_respect / mods_respect: every primitive and modifier emits only the backend calls its purity label allows (validated per primitive on the recording backend on every run; the four former exceptions were repaired by 1cead72, d78a439, 06086d8)",
         "macros_ok: recursive index-macro calls (Node::CallMacro, accepted by is_min_purity without inspection) point to functions that are themselves accepted",
         "the interpreter's own node kinds (push, unpack, under-stack moves, labels, format, bind) call no backend method other than the ambient clock",
-        "explicit comptime(...) and code macros (<-^) are compile-time execution by design of the language: outside the gate theorems, inside the search",
+        "explicit comptime(...) and code macros (<-^) are compile-time execution by design of the language: outside the gate theorems, inside the search (open findings C20-code-macro, C20-import-cache)",
+        "compile-state model: words are abstracted to leaf / sequence / parenthesised lines / fill / try / code macro; index macros and the other state of the compiler (scopes, bindings, experimental flag) are not modelled - the session search compares them behaviourally with a fresh compiler",
+        "pre-evaluation cache theorem: pure nodes evaluate alike on every backend (follows from C20_pure_no_effect under prims_respect) and node equality is decided correctly",
+        "the clock (now) and the local time zone are read from the host by the trait defaults by design; they are the only listed host-reading defaults",
     ]
     if not r.harness(["c20"]):
         return
@@ -367,6 +398,22 @@ def run(r):
     for n, ms, x in obs:
         if x["kind"] == "sys" and ms and len(r.coverage["samples"]) < 3:
             r.sample({"op": n, "label": x["pur"], "methods": ms, "safe_sys": x["safe_errs"], "calls": x["sample"][:200]})
+
+    # ---- search: the ANSWER of a system function under SafeSys / a backend without overrides must not depend on the host
+    rc, out, errh = run_bin("c20", ["hostdep", 0, scratch + "-hd"], seed=r.seed, timeout=900)
+    hl = json_lines(out)
+    hs = [x for x in hl if x.get("k") == "summary"]
+    if rc != 0 or not hs:
+        r.broken_obligation("search-harness:hostdep", "c20 hostdep failed to run", (out + errh)[-1500:])
+        hs = [{}]
+    for v in [x for x in hl if x.get("k") == "violation"]:
+        r.violation(v["key"], v["calls"][:500], {"program": v["program"], "detail": v["calls"], "cmd": "c20 hostdep"}, theorem="C20_defaults_host_free")
+    r.coverage["host_dependence"] = {"kind": "search", "system_functions": hs[0].get("system_functions"), "existing_vs_missing_targets": hs[0].get("targets"),
+                                     "runs": hs[0].get("runs"), "pairs_equal_not_supported": hs[0].get("pairs_equal_not_supported"),
+                                     "pairs_equal_ok": hs[0].get("pairs_equal_ok"), "pairs_equal_other_error": hs[0].get("pairs_equal_other_error"),
+                                     "host_dependent": hs[0].get("host_dependent"),
+                                     "no_argument_functions_succeeding": sorted(set(x["op"] for x in hl if x.get("k") == "noarg" and x["outcome"].startswith("Ok"))),
+                                     "default_bodies_with_host_constructs": {t["name"]: t["host_tokens"] for t in trait if t["host_tokens"]}}
 
     # ---- C: the gate functions on exported trees
     ncase = 250 if quick else 4000
@@ -654,8 +701,17 @@ def run(r):
 
     r.coverage["evaluations"] = s.get("compiles", 0) + sum(x["tries"] * 3 for x in ops) + nodes + (ss.get("steps") or 0)
     r.coverage["distinct_nontrivial"] = (s.get("nonempty_logs") or 0) + sum(1 for n_, ms, x in obs if ms) + true_pure
-    r.coverage["rule"] = ("search: %d system-function snippets x %d syntactic contexts (top level, functions, fills, un/under/anti/obverse, index and code macros, "
-                          "comptime, modules, imports, data definitions, recursion, loops) x 4 pre-evaluation modes, each compiled with the recording backend attached; "
-                          "tie: every primitive/system function executed on the recording backend (deny-all and canned) over an argument pool of paths, numbers, byte "
-                          "arrays, command lines and handle values; gate: sub-trees of the compiled programs.  non-trivial = compiles during which the backend was "
-                          "called + operations that reached a backend method + sub-trees the implementation judges pure" % (s.get("snippets") or 0, len(s.get("contexts") or {})))
+    r.coverage["rule"] = ("(1) compile search: %d system-function snippets x %d syntactic contexts (top level, functions, fills, un/under/anti/obverse, index and code macros, "
+                          "comptime, modules, imports, data definitions, recursion, loops) x 4 pre-evaluation modes, each compiled on a fresh compiler with the recording backend "
+                          "attached: no backend call in Lazy/Line/Normal (reads of explicit imports excepted), read-only calls in Lsp, scratch directory / descriptors / children "
+                          "unchanged; (2) sessions: one compiler with the deny-all recorder reused over snippets, %s failing snippets (bad operands in the operand position of 30 "
+                          "modifier forms bare and parenthesised, signature errors, unbalanced brackets, failing code/index macros) followed by %s probes, after every snippet: saved "
+                          "state restored (hook, compared with Gate.ccompile), no backend call, no host data in the assembly, same tree as a compiler that saw only the accepted "
+                          "snippets; (3) two compilers with different backends on one thread (pre-evaluation cache); (4) every primitive / system function executed on the recording "
+                          "backend (deny-all and canned) and on SafeSys over an argument pool of paths, numbers, byte arrays, command lines and handle values: observed methods within "
+                          "effects_of and within the purity label; (5) every system function under SafeSys and under a backend without overrides on targets that exist on the host "
+                          "(scratch file and directory, /, ., /etc/passwd, set environment variables) and on missing counterparts: same outcome required; (6) gate tie on sub-trees "
+                          "of compiled programs, backend-choice tie, tables and trait-method ties, default-body scan, static containment scan, regression corpus of all repaired "
+                          "findings.  non-trivial = compiles during which the backend was called + operations that reached a backend method + sub-trees judged pure + rejected "
+                          "session steps" % (s.get("snippets") or 0, len(s.get("contexts") or {}), ss.get("failing_snippets"), ss.get("probes")))
+    r.coverage["distinct_nontrivial"] += ss.get("rejected_steps") or 0
